@@ -496,3 +496,6 @@ def workload(ctx):
               "DependencyMapper.map_lookup", "DependencyMapper.map_subscript",
               "DependencyMapper.map_common_subexpression_uncached", "DependencyMapper.map_slice"):
         ctx.floor("handler:" + h, 1000)
+
+
+RULE = RULE + '  Later additions: 12 families nested 3-33 deep under all 72 flag sets; failed counts before every judged count; answers updated in place by the caller.'
